@@ -170,7 +170,8 @@ func parse(ctx context.Context, fileDesc *desc.FileDescriptor, mode meta.ParseSe
 }
 
 func parseMessage(ctx context.Context, msgDesc *desc.MessageDescriptor, cache compilingCache, recursionDepth int, opts Options, parseTarget ParseTarget) (*TypeDescriptor, error) {
-	if tycache, ok := cache[msgDesc.GetName()]; ok && tycache.parseTarget == parseTarget {
+	// keyed by the fully-qualified name: nested messages (and map entries) of different parents may share a simple name
+	if tycache, ok := cache[msgDesc.GetFullyQualifiedName()]; ok && tycache.parseTarget == parseTarget {
 		return tycache.desc, nil
 	}
 
@@ -189,7 +190,7 @@ func parseMessage(ctx context.Context, msgDesc *desc.MessageDescriptor, cache co
 		msg:  md,
 	}
 
-	cache[ty.name] = &compilingInstance{
+	cache[msgDesc.GetFullyQualifiedName()] = &compilingInstance{
 		desc:        ty,
 		opts:        opts,
 		parseTarget: parseTarget,
